@@ -215,8 +215,33 @@ def term_bits(bf, t, w):
     if h == 'param':
         tw = _W.get(bf.body.locals[t[1]], w)
         return extend([('i', 'arg%d' % t[1], k) for k in range(tw)], w, bf.body.locals[t[1]].startswith('i'))
+    if h == 'call' and (t[1].endswith('From::from') or t[1].endswith('Into::into')) and len(t[2]) == 1:
+        iw = term_width(bf, t[2][0])
+        if iw is not None:
+            return extend(term_bits(bf, t[2][0], iw), w, False)
+    if h == 'call' and t[1].endswith('from_le_bytes') and len(t[2]) == 1 and peel(t[2][0])[0] == 'array':
+        out = []
+        for e in peel(t[2][0])[1]:
+            out.extend(term_bits(bf, e, 8))
+        return extend(out, w, False)
     if h in ('index', 'cindex', 'field', 'call', 'as'):
         name = term_str(t)
         tw = 8 if h in ('index', 'cindex') else w
         return extend([('i', name, k) for k in range(tw)], w, False)
     return [UNK] * w
+
+
+def term_width(bf, t):
+    """bit width of an integer term when it can be read off its shape"""
+    t = peel(t)
+    if not isinstance(t, tuple) or not t:
+        return None
+    if t[0] == 'cast':
+        return _W.get(t[1])
+    if t[0] == 'param':
+        return _W.get(bf.body.locals[t[1]])
+    if t[0] in ('index', 'cindex'):
+        return 8
+    if t[0] == 'call' and t[1].endswith('from_le_bytes') and peel(t[2][0])[0] == 'array':
+        return 8 * len(peel(t[2][0])[1])
+    return None
